@@ -82,6 +82,15 @@ WITNESS = {"kind": "gd", "d": 2, "obj": "quad", "coef": [25.0, 0.5, 0.0, 0.0, 0.
            "inc": 4.0, "dec": 1.5, "tol": 1e-6, "step0": 0.01, "inside_start": True, "idx": "witnessF6"}
 
 
+# extremely stiff problems: the backtracking drives the adaptive step size down to 1e-13 and below (anything that is keyed to a small step
+# size, e.g. the numerical tolerance of the step-size test, only shows here); run with a long ladder of caps
+STIFF = [
+    {"kind": "gd", "d": 2, "obj": "quad", "coef": [0.5, 5e13, 0.0, 0.0, 0.0], "proj": "none", "pa": [], "x": [1.0, 1.0],
+     "inc": 1.25, "dec": 2.0, "tol": 1e-6, "step0": 1.0, "inside_start": True, "idx": "stiffA", "caps": [0, 1, 10, 39, 40, 41, 46, 50, 60, 80, 120]},
+    {"kind": "gd", "d": 2, "obj": "quad", "coef": [1.0, 1e12, 0.0, 0.0, 0.0], "proj": "ball", "pa": [2.0], "x": [1.0, 0.5],
+     "inc": 2.0, "dec": 4.0, "tol": 0.0, "step0": 0.1, "inside_start": True, "idx": "stiffB", "caps": [0, 5, 15, 19, 20, 21, 25, 40, 80]},
+]
+
 # exact ties of the constant-step stopping test (residual == tolerance) and exactly reached stationary points (tolerance 0)
 TIES = [
     {"kind": "gdc", "d": 1, "obj": "quad", "coef": [1.0, 0.0, 0.0], "x": [1.0], "tol": 0.0, "step": 0.5, "idx": "tieA"},     # x -> 0 exactly, residual 0 == tol 0
@@ -218,7 +227,7 @@ def run(res, tier, seed, replay_problem=None):
     kmax = {"quick": 10, "thorough": 40}[tier]
     if proof_broken:
         nprob *= 3
-    problems = [dict(WITNESS)] + [dict(t) for t in TIES]
+    problems = [dict(WITNESS)] + [dict(t) for t in STIFF] + [dict(t) for t in TIES]
     if replay_problem is not None:
         problems = [replay_problem]
         nprob = ncon = 0
@@ -232,6 +241,8 @@ def run(res, tier, seed, replay_problem=None):
         caps = list(range(0, kmax + 1)) + [-1] if p["kind"] == "gd" else sorted(set([0, 1, 2, 3, 5, 8, kmax, 4 * kmax, -2]))
         if tier == "quick" and p["kind"] == "gd" and pid != "witnessF6":
             caps = sorted(set([-1, 0, 1, 2, 3, 4, 6, kmax]))
+        if p.get("caps"):
+            caps = list(p["caps"])
         caps_of[pid] = caps
         for cap in caps:
             lines.append("case %s.%d" % (pid, cap))
